@@ -345,6 +345,10 @@ Section Ser.
                 end
     end.
 
+  (* the digest of [v] when it is hashed after the values [ctx] under the same Cache *)
+  Definition hash_in (ctx : list pyval) (v : pyval) : res string :=
+    last (hash_all (ctx ++ [v]) []) (Err EFuel).
+
   (* ---------------------------------------------------------------- the same serializers without the memo:
      the digest as a function of the value alone *)
   Fixpoint dig (fuel : nat) (v : pyval) (u : unit) : res (string * unit) :=
